@@ -7,7 +7,7 @@ applied there, the quick check of the property it breaks run with VF_REPO pointi
 removed again.  (Equivalent to `git -C /repo apply` + check + `git -C /repo checkout -- .`, but /repo is
 never touched, so other work can go on; use --in-place for exactly that procedure.)
 
-usage: tools/seeded.py [name ...] [--scale F] [--demo] [--in-place]
+usage: tools/seeded.py [name ...] [--scale F] [--demo] [--in-place] [--first]
   --demo        also run demo.py against the patched and the clean tree (expects exit 1 / exit 0)
 """
 import json
@@ -60,6 +60,9 @@ def main():
                 demo = f" demo(patched)={sh('/venv/bin/python', os.path.join(d, 'demo.py'), tree).returncode}"
             verdicts = []
             env = dict(os.environ, VF_NO_EVIDENCE="1", VF_REPO=tree)
+            if "--first" in sys.argv:  # stop at the first violation (a yes/no table, much faster)
+                env["VF_FIRST"] = "1"
+                env["VF_REPLAY_OUT"] = os.path.join(tree, "replays_out")
             for p in pids:
                 r = sh(os.path.join(HERE, "check"), p, "quick", "--scale", scale, "--no-shrink", env=env)
                 buckets = sorted({l.split(" ")[0][7:] for l in r.stdout.splitlines() if l.startswith("bucket=")})
